@@ -24,7 +24,7 @@ def oracle(ctx, c):
             if r["out"] != "ok" or not r["md_value"]:
                 continue
             x = where.get(r["ex"])
-            if x is None or x["md"] != r["md_value"]:
+            if x is None or F.md_canon(x["md"]) != F.md_canon(r["md_value"]):
                 mutated = any(op[0] == "mut" for sess in c["sessions"] for op in sess)
                 ctx.report({"kind": "label", "mutated_in_place": mutated},
                            f"example {r['ex']} written under {r['md_value']} is stored in a shard labelled {x and x['md']}",
